@@ -24,7 +24,7 @@ class C08(PropBase):
                 yield dict(directed=directed, removal=False, hist=h, family='int', functional=False)
 
     def n_random(self, tier):
-        return 800 if tier == 'quick' else 15000
+        return 800 if tier == 'quick' else 60000
 
     def random_cases(self, rnd, n):
         for _ in range(n):
